@@ -48,13 +48,17 @@ func (i *documentIndex) Get(key string) interface{} {
 }
 
 func (i *documentIndex) UpdateIndex(oplog ipfslog.Log, _ []ipfslog.Entry) error {
-	entries := oplog.Values().Slice()
-	size := len(entries)
-
 	handled := map[string]struct{}{}
 
 	i.muIndex.Lock()
 	defer i.muIndex.Unlock()
+
+	// the log is read once the lock is held: of two concurrent updates (a local
+	// write, a merged batch, a load) the one that writes the view last is then
+	// also the one that saw the most recent log, and the view cannot be left
+	// behind the log
+	entries := oplog.Values().Slice()
+	size := len(entries)
 
 	for idx := range entries {
 		item, err := operation.ParseOperation(entries[size-idx-1])
